@@ -259,12 +259,43 @@ def runAdapter (comp : Option Compression) (tr : Bool) (stream : Option Int16) (
     | _, _, _, _, _, _ => "bad-case"
   | _ => "bad-case"
 
+/-- `decomp <lz4|snappy> <body>`: the model's `decompressE` with the block decoders instantiated from what the
+reference decoders answered (`ref=ok:HEX|err|skip|none`, `len=N|err` in the implementation's line). -/
+def runDecomp (c : Compression) (body : Bytes) (impl : String) : String :=
+  let iw := implWords impl
+  let refW := iw.find? (fun w => w.startsWith "ref=")
+  let lenW := iw.find? (fun w => w.startsWith "len=")
+  match refW with
+  | none => "REJECT no-reference-decoder-answer"
+  | some rw =>
+    let refS := (rw.drop 4).toString
+    let refBytes : Option Bytes :=
+      if refS.startsWith "ok:" then parseHex (refS.drop 3).toString else none
+    let lenN : Option Nat :=
+      match lenW with
+      | some lw => ((lw.drop 4).toString).toNat?
+      | none => none
+    let k : Codec := { lz4 := fun _ => [], unlz4 := fun _ _ => refBytes, snappy := fun _ => none,
+                       unsnappy := fun _ => refBytes, snappyLen := fun _ => lenN }
+    let tail := " " ++ rw ++ (match lenW with | some lw => " " ++ lw | none => "")
+    match decompressE k c body with
+    | .ok b => "ok " ++ toHex b ++ tail
+    | .error .prefix => "err prefix" ++ tail
+    | .error .guard => "err guard" ++ tail
+    | .error .header => "err header" ++ tail
+    | .error .codec =>
+      if refS == "skip" then "REJECT reference-decoder-skipped-but-the-model-needs-it" else "err codec" ++ tail
+
 def run (case impl : String) : String :=
   match words case with
   | ["biglen", what, n] =>
     match n.toNat? with
     | some n => bigLen what n
     | none => "bad-case"
+  | ["decomp", comp, body] =>
+    match compTok comp, bytesTok body with
+    | some (some c), some b => runDecomp c b impl
+    | _, _ => "bad-case"
   | "abatch" :: comp :: tr :: stream :: fields =>
     match compTok comp, boolTok tr, streamTok stream with
     | some comp, some tr, some stream => runAdapter comp tr stream fields impl
